@@ -325,4 +325,78 @@ own defaults before the generic ones — the order `Env.attrDefault` (and with i
 above) assumes.  Read from the source on every run (Generated/Tables.lean). -/
 theorem C05_source_default_order : DEvo.Generated.attrDefaultTypeFirst = true := by decide
 
+/-! ## Meta changes -/
+
+/-- the ChangeMeta part of a model's hint, in the order `Diff.evolution()` emits it -/
+def metasOf (name : String) (new : ModelSig) (mc : List String) : List Mutation :=
+    (if mc.contains "constraints" then [Mutation.changeMeta name "constraints" (.sigs new.constraints)] else []) ++
+    (if mc.contains "db_table_comment" then [Mutation.changeMeta name "db_table_comment" (.raw new.comment)] else []) ++
+    (if mc.contains "indexes" then [Mutation.changeMeta name "indexes" (.sigs new.indexes)] else []) ++
+    (if mc.contains "index_together" then [Mutation.changeMeta name "index_together" (.together new.indexTogether)] else []) ++
+    (if mc.contains "unique_together" then [Mutation.changeMeta name "unique_together" (.together new.uniqueTogether)] else [])
+
+theorem hintModel_ends_with_metas (e : Env) (new : ModelSig) (name : String) (d : ModelDiff) :
+    ∃ pre, hintModel e new name d = pre ++ metasOf name new d.metaChanged := by
+  unfold hintModel metasOf
+  exact ⟨_, rfl⟩
+
+/-- apply the ChangeMeta mutations of a list to one model, in order -/
+def applyMetas (e : Env) : List Mutation → ModelSig → Except SimErr ModelSig
+  | [], m => .ok m
+  | .changeMeta _ prop v :: rest, m =>
+    match simChangeMeta e prop v m with
+    | .ok m' => applyMetas e rest m'
+    | .error err => .error err
+  | _ :: _, _ => .error .crash
+
+
+/-- **the hinted Meta changes resolve the Meta difference**: for any two versions of a model, applying the
+ChangeMeta mutations that `Diff.evolution()` proposes for their difference (every subset of the five tracked
+properties, each with any value) to the old version leaves no Meta difference with the new one in either
+direction, and does not touch the fields - on a backend that supports the properties that differ, for a target whose
+`unique_together` counts as applied (every signature built from models) -/
+theorem C05_closure_meta (e : Env) (name : String) (old new : ModelSig)
+    (hsup : ∀ prop ∈ metaChangedOf old new, e.supportedMeta prop = true) (hut : new.utApplied = true) :
+    ∃ m', applyMetas e (metasOf name new (metaChangedOf old new)) old = .ok m' ∧
+      metaChangedOf m' new = [] ∧ metaChangedOf new m' = [] ∧ m'.fields = old.fields := by
+  have h1 : (new.constraints != old.constraints) = true → e.supportedMeta "constraints" = true :=
+    fun c => hsup _ (by simp [metaChangedOf, c])
+  have h2 : (new.comment != old.comment) = true → e.supportedMeta "db_table_comment" = true :=
+    fun c => hsup _ (by simp [metaChangedOf, c])
+  have h3 : (new.indexes != old.indexes) = true → e.supportedMeta "indexes" = true :=
+    fun c => hsup _ (by simp [metaChangedOf, c])
+  have h4 : (new.indexTogether != old.indexTogether) = true → e.supportedMeta "index_together" = true :=
+    fun c => hsup _ (by simp [metaChangedOf, c])
+  have h5 : utChanged old new = true → e.supportedMeta "unique_together" = true :=
+    fun c => hsup _ (by simp [metaChangedOf, c])
+  have step : ∀ (prop : String) (v : MetaVal) (m : ModelSig) (rest : List Mutation),
+      applyMetas e (Mutation.changeMeta name prop v :: rest) m =
+        (match simChangeMeta e prop v m with | .ok m' => applyMetas e rest m' | .error err => .error err) := by
+    intros; rfl
+  have s1 : e.supportedMeta "constraints" = true →
+      ∀ m v, simChangeMeta e "constraints" (.sigs v) m = .ok { m with constraints := v } := by
+    intro h m v; simp [simChangeMeta, h]
+  have s2 : e.supportedMeta "db_table_comment" = true →
+      ∀ m v, simChangeMeta e "db_table_comment" (.raw v) m = .ok { m with comment := v } := by
+    intro h m v; simp [simChangeMeta, h]
+  have s3 : e.supportedMeta "indexes" = true →
+      ∀ m v, simChangeMeta e "indexes" (.sigs v) m = .ok { m with indexes := v } := by
+    intro h m v; simp [simChangeMeta, h]
+  have s4 : e.supportedMeta "index_together" = true →
+      ∀ m v, simChangeMeta e "index_together" (.together v) m = .ok { m with indexTogether := v } := by
+    intro h m v; simp [simChangeMeta, h]
+  have s5 : e.supportedMeta "unique_together" = true →
+      ∀ m v, simChangeMeta e "unique_together" (.together v) m = .ok { m with uniqueTogether := v, utApplied := true } := by
+    intro h m v; simp [simChangeMeta, h]
+  clear hsup
+  unfold metaChangedOf metasOf
+  by_cases c1 : utChanged old new = true <;> by_cases c2 : (new.indexTogether != old.indexTogether) = true <;>
+    by_cases c3 : (new.indexes != old.indexes) = true <;> by_cases c4 : (new.constraints != old.constraints) = true <;>
+    by_cases c5 : (new.comment != old.comment) = true
+  all_goals
+    simp [c1, c2, c3, c4, c5] at h1 h2 h3 h4 h5
+  all_goals
+    simp [c1, c2, c3, c4, c5, step, applyMetas, h1, h2, h3, h4, h5, s1, s2, s3, s4, s5]
+  all_goals (simp_all [utChanged])
+
 end DEvo.Props.C05
